@@ -502,7 +502,70 @@ def run_r5(ctx, yastn, rng, pid, key, count):
                      case=case, concrete=True)
 
 
-RELATIONS = {"R1": run_r1, "R2": run_r2, "R3": run_r3, "R4": run_r4, "R5": run_r5}
+# --------------------------------------------------------------------------------------------------------------------
+# R6: block() of hard-fused tensors with different sector content, in both orders
+# --------------------------------------------------------------------------------------------------------------------
+def run_r6(ctx, yastn, rng, pid, key, count):
+    """x, y: tensors on compatible legs with different sector content, hard-fused (possibly nested) in the same way.
+    B1 = block({0: x, 1: y}), B2 = block({0: y, 1: x}) along the first leg:  <B1|B1> = <x|x> + <y|y>,  <B1|B2> = <x|y> + <y|x>,
+    |B1 + B2|^2 = 2 |x + y|^2 — all through the masks of direct-sum legs made of hard-fused legs."""
+    symname = rng.choice([s for s in tgen.SYM_NAMES if s != "dense"])
+    cplx = rng.random() < 0.3
+    cfg = tgen.make_cfg(symname, rng.choice(tgen.POLICIES), "hard", dtype="complex128" if cplx else "float64")
+    nd = rng.randint(3, 5)
+    pool = [tgen.rand_leg(rng, cfg, symname, max_sectors=3, max_dim=2) for _ in range(3)]
+    legs = [rng.choice(pool) for _ in range(nd)]
+
+    def variant(l):
+        base = [p for p in pool if compatible(p, l) and p.s == l.s]
+        return union_leg(cfg, l.s, l, rng.choice(base)) if base and rng.random() < 0.6 else l
+    x = tgen.rand_tensor(rng, cfg, symname, [variant(l) for l in legs], cplx=cplx, n=cfg.sym.zero(), drop=0.3, allow_empty=False)
+    y = tgen.rand_tensor(rng, cfg, symname, [variant(l) for l in legs], cplx=cplx, n=cfg.sym.zero(), drop=0.3, allow_empty=False)
+    if x.size == 0 or y.size == 0:
+        return
+    fx, fy, prog = x, y, []
+    for _ in range(rng.randint(1, 2)):
+        if fx.ndim < 2:
+            break
+        order = list(range(fx.ndim)); rng.shuffle(order)
+        groups, i = [], 0
+        while i < len(order):
+            k = rng.choice([1, 2, 2, 3]); g = order[i:i + k]; i += k
+            groups.append(g[0] if len(g) == 1 else tuple(g))
+        if all(not isinstance(g, tuple) for g in groups):
+            continue
+        fx, fy = fx.fuse_legs(axes=tuple(groups), mode="hard"), fy.fuse_legs(axes=tuple(groups), mode="hard")
+        prog.append([list(g) if isinstance(g, tuple) else g for g in groups])
+    if not prog:
+        return
+    case = {"relation": "R6", "x": tgen.to_model(x), "y": tgen.to_model(y), "fusions": prog, "sym": symname}
+    ctx.case({"relation": "R6", "sym": symname, "depth": len(prog)}, nontrivial=len(x.struct.t) >= 2)
+    count(f"views:R6:depth:{len(prog)}")
+    kA = (0,) * fx.ndim; kB = (1,) + (0,) * (fx.ndim - 1)
+    try:
+        B1, B2 = yastn.block({kA: fx, kB: fy}), yastn.block({kA: fy, kB: fx})
+    except yastn.YastnError:
+        count("views:R6:block-rejected"); return
+    checks = [("<B1|B1> = <x|x> + <y|y>", lambda: yastn.vdot(B1, B1), lambda: yastn.vdot(x, x) + yastn.vdot(y, y)),
+              ("<B1|B2> = <x|y> + <y|x>", lambda: yastn.vdot(B1, B2), lambda: yastn.vdot(x, y) + yastn.vdot(y, x)),
+              ("|B1 + B2|^2 = 2 |x + y|^2", lambda: yastn.vdot(B1 + B2, B1 + B2), lambda: 2 * yastn.vdot(x + y, x + y))]
+    for name, got, want in checks:
+        try:
+            w = complex(want())
+        except Exception:  # noqa: BLE001
+            continue
+        try:
+            g = complex(got())
+        except Exception as e:  # noqa: BLE001
+            tag = "overflow-in-hfs-bookkeeping" if isinstance(e, OverflowError) else "raises"
+            ctx.fail("oracle", f"{key}:views:R6:{tag}", f"{name} for blocked hard-fused tensors (fusions {prog}) raised {type(e).__name__}: {str(e)[:100]}",
+                     case=case, concrete=True)
+            continue
+        if abs(g - w) > 1e-9 * max(1.0, abs(w)):
+            ctx.fail("oracle", f"{key}:views:R6", f"{name} for blocked hard-fused tensors (fusions {prog}): {g} vs {w}", case=case, concrete=True)
+
+
+RELATIONS = {"R1": run_r1, "R2": run_r2, "R3": run_r3, "R4": run_r4, "R5": run_r5, "R6": run_r6}
 
 
 def run(ctx, ncases, budget, which=("R1", "R1", "R1", "R2", "R3", "R4"), key=None):
